@@ -11,7 +11,7 @@ M1 == {[k |-> n, index |-> v] : n \in {"Have", "SuggestPiece", "AllowedFast"}, v
 M3 == {[k |-> n, index |-> a, begin |-> b, length |-> c] : n \in {"Request", "Cancel", "RejectRequest"},
                                                            a \in Vals3, b \in Vals3, c \in Vals3}
       \cup {[k |-> n, index |-> v, begin |-> v, length |-> v] : n \in {"Request", "Cancel", "RejectRequest"}, v \in Vals}
-MBf == {[k |-> "Bitfield", n |-> n] : n \in {0, 1, 2, 17, 1000}}
+MBf == {[k |-> "Bitfield", n |-> n] : n \in {0, 1, 2, 17, 1000, 1048575}}    \* the last one makes a frame of exactly 1 MiB, the cap
 MPc == {[k |-> "Piece", index |-> a, begin |-> b, n |-> n] : a \in Vals3, b \in Vals3, n \in {0, 1, 2, 16384}}
 MPo == {[k |-> "Port", port |-> p] : p \in {0, 1, 255, 256, 65535}}
 
